@@ -7,6 +7,61 @@ from sa.model import fq, row_loops, rowloop_signature, u, where
 from sa.paths import BREAK, CONTINUE, FALL, RAISE, RETURN, path_nodes
 
 
+def _direct_refs(v):
+    """Names an expression evaluates to *by reference* (itself, or as an element of a literal container / conditional)."""
+    if isinstance(v, ast.Name):
+        return {v.id}
+    if isinstance(v, (ast.Tuple, ast.List, ast.Set)):
+        out = set()
+        for e in v.elts:
+            out |= _direct_refs(e)
+        return out
+    if isinstance(v, ast.Dict):
+        out = set()
+        for e in v.values:
+            out |= _direct_refs(e)
+        return out
+    if isinstance(v, ast.IfExp):
+        return _direct_refs(v.body) | _direct_refs(v.orelse)
+    if isinstance(v, ast.BoolOp):
+        out = set()
+        for e in v.values:
+            out |= _direct_refs(e)
+        return out
+    if isinstance(v, ast.Starred):
+        return _direct_refs(v.value)
+    return set()
+
+
+def row_reference_escapes(fi, loop, var):
+    """Places where the row object itself (not a rendering / copy of it) is stored into a container that outlives the
+    iteration: (node, container name).  A stored reference is read later - after downstream steps may have edited the row."""
+    refs = {var}
+    changed = True
+    body_nodes = [n for st in loop.body for n in ast.walk(st)]
+    while changed:
+        changed = False
+        for n in body_nodes:
+            if isinstance(n, ast.Assign) and len(n.targets) == 1 and isinstance(n.targets[0], ast.Name):
+                if n.targets[0].id not in refs and _direct_refs(n.value) & refs:
+                    refs.add(n.targets[0].id)
+                    changed = True
+    out = []
+    for n in body_nodes:
+        if isinstance(n, ast.Call) and isinstance(n.func, ast.Attribute) and \
+                n.func.attr in ('append', 'add', 'insert', 'extend', 'appendleft', 'setdefault', 'update'):
+            recv = pseudo(n.func.value) or base_name(n.func.value)
+            if recv in refs:
+                continue
+            if any(_direct_refs(a) & refs for a in n.args):
+                out.append((n, recv))
+        elif isinstance(n, ast.Assign):
+            for t in n.targets:
+                if isinstance(t, ast.Subscript) and base_name(t) not in refs and _direct_refs(n.value) & refs:
+                    out.append((n, base_name(t)))
+    return out
+
+
 def transparent_loop(ctx, rule, fi, loop, var, effects=(), what=''):
     """Every path through one iteration yields the loop variable itself exactly once, stores nothing into it, does not leave
     the loop early, and (if `effects` given) calls one of the named side-effect functions with the row."""
@@ -41,6 +96,11 @@ def transparent_loop(ctx, rule, fi, loop, var, effects=(), what=''):
             ok_all = False
             run.fail(rule, where(ctx.repo, loop), fi.qualname, '%s: %s' % (what or u(loop.iter), g),
                      'observer is not transparent/complete for this row: ' + '; '.join(problems), path=s.path.describe())
+    for n, cont in row_reference_escapes(fi, loop, var):
+        ok_all = False
+        run.fail(rule, where(ctx.repo, n), fi.qualname, '%s: %s' % (what or u(loop.iter), u(n)),
+                 'the observer keeps a reference to the row object in %r and uses it after the row was handed downstream: what it '
+                 'reports / persists then reflects edits made by later steps, not the stream at its position' % cont)
     if ok_all:
         run.ok(rule, where(ctx.repo, loop), fi.qualname + ' for %s in %s' % (var, u(loop.iter)),
                '%d paths: one identity yield, no store, no early exit%s' % (len(sigs), ', one %s call' % '/'.join(effects)
